@@ -23,6 +23,7 @@ def run(chk):
     e3.run_L1(chk, rule="F3", floor=100)
     e3.run_L2(chk)
     e3.run_V1(chk)
+    e3.run_I4(chk)
 
 
 MUTANTS = [
